@@ -6,6 +6,7 @@
 -/
 import Proofs.C19_Lemmas
 import Proofs.C19_Perf
+import Proofs.C19_PerfOld
 import Proofs.C19_Flatten
 import Proofs.C19_Stream
 namespace Atomman.C19
@@ -314,6 +315,78 @@ example : ∃ st', readLog LogState.empty true demoLayout.lines = .ok st' ∧
   rw [h2]
   decide
 
+/-! ## read with timing lines of the old layout -/
+
+/-- **read_breakdown_old**: the same for the OLD timing layout (`Pair  time (%) = 0.0003 (71.35)` …, LAMMPS before the
+    `MPI task timing breakdown` table): a well-formed log whose lines split into stretches that start no timing block
+    and well-formed old blocks (the `Pair  time (%)` line, further lines with exactly one `=`, the `Nlocal:` line; each
+    after at least one memory banner) is read without an exception, and the records are the old ones followed by one
+    table per run. -/
+theorem read_breakdown_old (L : Layout) (h : L.WF) (segs : List OSeg) (hsegs : L.lines = segs.flatMap OSeg.lines)
+    (hwf : osegsWF 0 segs) (st : LogState) (app : Bool)
+    (hver : (startState st app).version.isSome = true ∨ firstVersionLine L.lines = none ∨
+      ∃ l d, firstVersionLine L.lines = some l ∧ dateOf (extractVersion l) = .ok d) :
+    ∃ st', readLog st app L.lines = .ok st' ∧
+      st'.sims.map Sim.thermo = (if app then st.sims.map Sim.thermo else []) ++ L.runs.map Run.table := by
+  obtain ⟨sims, hs⟩ := perf_ok_old L h segs hsegs hwf st app (L.runs.map Run.table) (by simp)
+  have ht := read_tables L h st app
+  have hv : ∃ version date,
+      ((passOf st app L.lines).versionLine = none ∧ version = (startState st app).version
+          ∧ date = (startState st app).date) ∨
+        ∃ l d, (passOf st app L.lines).versionLine = some l ∧ dateOf (extractVersion l) = .ok d ∧
+          version = some (extractVersion l) ∧ date = some d := by
+    rw [passOf_version]
+    rcases hver with hv | hv | ⟨l, d, hl, hd⟩
+    · exact ⟨_, _, Or.inl ⟨by simp [hv], rfl, rfl⟩⟩
+    · exact ⟨_, _, Or.inl ⟨by simp [hv], rfl, rfl⟩⟩
+    · by_cases hk : (startState st app).version.isSome = true
+      · exact ⟨_, _, Or.inl ⟨by simp [hk], rfl, rfl⟩⟩
+      · exact ⟨_, _, Or.inr ⟨l, d, by simp [hk, hl], hd, rfl, rfl⟩⟩
+  obtain ⟨version, date, hv⟩ := hv
+  have hr := readLog_of st app L.lines _ sims version date hv ht hs
+  exact ⟨_, hr, read_layout L h st _ app hr⟩
+
+def demoOld : OldBreakdown where
+  first := "Pair  time (%) = 0.0003 (71.35)".toList
+  rows := ["Neigh time (%) = 0 (0)".toList, "Other time (%) = 0.0001 (28.65)".toList]
+  stop := "Nlocal: 4 ave".toList
+
+theorem demoOld_WF : demoOld.WF := by
+  constructor <;> decide
+
+def demoLayoutOld : Layout where
+  head := ["LAMMPS (1 Feb 2014)".toList, [], "units metal".toList]
+  runs := [{ banner := "Memory usage per processor = 3 Mbytes".toList,
+             header := "Step Temp".toList,
+             body := ["0 300.5".toList, "10 290".toList],
+             tail := some ("Loop time of 0.01 on 1 procs".toList,
+               [[]] ++ demoOld.lines ++ ["Histogram: 1 0".toList]) }]
+
+theorem demoLayoutOld_WF : demoLayoutOld.WF where
+  head_quiet := by decide
+  runs_ok := by
+    refine ⟨by decide, by decide, by decide, by decide, by decide, by decide, by decide, ?_⟩
+    show _ ∧ _ ∧ _ ∧ _
+    decide
+
+def demoSegsOld : List OSeg :=
+  [.quiet (demoLayoutOld.head ++ ["Memory usage per processor = 3 Mbytes".toList,
+      "Step Temp".toList, "0 300.5".toList, "10 290".toList,
+      "Loop time of 0.01 on 1 procs".toList, []]),
+   .block demoOld, .quiet ["Histogram: 1 0".toList]]
+
+example : ∃ st', readLog LogState.empty true demoLayoutOld.lines = .ok st' ∧
+    st'.sims.map Sim.thermo = [⟨["Step".toList, "Temp".toList],
+      [["0".toList, "300.5".toList], ["10".toList, "290".toList]]⟩] := by
+  have := read_breakdown_old demoLayoutOld demoLayoutOld_WF demoSegsOld (by decide)
+    ⟨by decide, demoOld_WF, by decide, by decide, trivial⟩ LogState.empty true
+    (Or.inr (Or.inr ⟨"LAMMPS (1 Feb 2014)".toList, ⟨2014, 2, 1⟩, by decide, by decide⟩))
+  obtain ⟨st', h1, h2⟩ := this
+  refine ⟨st', h1, ?_⟩
+  rw [h2]
+  decide
+
+
 /-! ## flatten -/
 
 section Flatten
@@ -610,5 +683,75 @@ example : flattenTables "latest".toList
 
 example : flattenTables "all".toList
     [⟨["Step".toList], [["0".toList]]⟩, ⟨["Time".toList], [["0.5".toList]]⟩] = .error .assert := by decide
+
+/-! ## the columns of a merged table (runs with different thermo keywords) -/
+
+theorem mem_unionCols_aux (acc : List Str) (tabs : List Table) (c : Str) :
+    c ∈ tabs.foldl (fun acc t => acc ++ t.cols.filter (fun c => !acc.contains c)) acc ↔
+      c ∈ acc ∨ ∃ t ∈ tabs, c ∈ t.cols := by
+  induction tabs generalizing acc with
+  | nil => simp
+  | cons t ts ih =>
+    rw [foldl_cons, ih]
+    simp only [mem_append, mem_filter, mem_cons, exists_eq_or_imp]
+    constructor
+    · rintro ((h | ⟨h, _⟩) | h)
+      · exact Or.inl h
+      · exact Or.inr (Or.inl h)
+      · exact Or.inr (Or.inr h)
+    · rintro (h | h | h)
+      · exact Or.inl (Or.inl h)
+      · by_cases hc : c ∈ acc
+        · exact Or.inl (Or.inl hc)
+        · exact Or.inl (Or.inr ⟨h, by simpa using hc⟩)
+      · exact Or.inr h
+
+/-- the columns of a merged table are the keywords of the merged runs (each once when no run prints one twice). -/
+theorem mem_unionCols (tabs : List Table) (c : Str) : c ∈ unionCols tabs ↔ ∃ t ∈ tabs, c ∈ t.cols := by
+  unfold unionCols
+  rw [mem_unionCols_aux]
+  simp
+
+theorem nodup_unionCols_aux (acc : List Str) (tabs : List Table) (hacc : acc.Nodup)
+    (h : ∀ t ∈ tabs, t.cols.Nodup) :
+    (tabs.foldl (fun acc t => acc ++ t.cols.filter (fun c => !acc.contains c)) acc).Nodup := by
+  induction tabs generalizing acc with
+  | nil => simpa using hacc
+  | cons t ts ih =>
+    rw [foldl_cons]
+    apply ih
+    · rw [nodup_append]
+      refine ⟨hacc, (h t mem_cons_self).filter _, ?_⟩
+      intro a ha b hb hab
+      subst hab
+      simp only [mem_filter] at hb
+      simp [ha] at hb
+    · intro t' ht'; exact h t' (mem_cons_of_mem _ ht')
+
+theorem nodup_unionCols (tabs : List Table) (h : ∀ t ∈ tabs, t.cols.Nodup) : (unionCols tabs).Nodup :=
+  nodup_unionCols_aux [] tabs nodup_nil h
+
+/-- **flatten_columns**: whenever `flatten` merges two or more records, the columns of the result are the union of their
+    keyword lists in order of first appearance, whatever the style. -/
+theorem flatten_columns (style : Str) (t t' : Table) (ts : List Table) (res : Table)
+    (h : flattenTables style (t :: t' :: ts) = .ok res) : res.cols = unionCols (t :: t' :: ts) := by
+  unfold flattenTables at h
+  simp only at h
+  repeat' split at h
+  all_goals first | (cases h; rfl) | cases h
+
+/-- every row of a merged table has one cell per column (a keyword a run did not print is filled in, with `nan`). -/
+theorem flatten_rows_width (style : Str) (t t' : Table) (ts : List Table) (res : Table)
+    (h : flattenTables style (t :: t' :: ts) = .ok res) : ∀ r ∈ res.rows, r.length = res.cols.length := by
+  unfold flattenTables at h
+  simp only at h
+  repeat' split at h
+  all_goals first | (cases h; intro r hr; simp only [mem_map] at hr; obtain ⟨_, _, rfl⟩ := hr; simp) | cases h
+
+example : flattenTables "last".toList
+    [⟨["Step".toList, "Temp".toList], [["0".toList, "1.5".toList], ["10".toList, "2.5".toList]]⟩,
+     ⟨["Step".toList, "Press".toList], [["10".toList, "7".toList]]⟩]
+    = .ok ⟨["Step".toList, "Temp".toList, "Press".toList],
+        [["0".toList, "1.5".toList, "nan".toList], ["10".toList, "nan".toList, "7".toList]]⟩ := by decide
 
 end Atomman.C19
